@@ -138,7 +138,14 @@ def run_harness(ck, hb, ops, cache_dir, work_dir, timeout=120, extra_env=None):
            "ASAN_OPTIONS": "detect_leaks=0:abort_on_error=0:exitcode=66:allocator_may_return_null=1"}
     if extra_env:
         env.update(extra_env)
-    rc, so, se = sh([hb], input="# 0\n" + "\n".join(ops) + "\n", timeout=timeout, env=ck.run_env(env))
+    for attempt in range(15):
+        rc, so, se = sh([hb], input="# 0\n" + "\n".join(ops) + "\n", timeout=timeout, env=ck.run_env(env))
+        # the shared build of /repo may be relinked by a concurrently running check: the loader then
+        # refuses the half-written library; that is not an observation of the code under test
+        if rc == 127 and "error while loading shared libraries" in se:
+            time.sleep(20)
+            continue
+        break
     obs, ora = [], []
     for l in so.splitlines():
         if l.startswith("# "):
